@@ -14,6 +14,8 @@ def run(ctx):
     ctx.rule("R09.2", "every CommandState::spawn is preceded on its path by to_spawnable, reset (previous run saved) and exactly one awaited "
                       "SpawnHook::call on the same spawnable with {current: &command_state, previous: previous_run.as_ref()}")
     ctx.rule("R09.3", "CommandState::reset leaves the state Pending and returns the previous run unchanged (Finished) or as Finished{Continued} (Running)")
+    ctx.rule("R09.6", "helpers the effect rows rely on: signal_child delivers the requested signal (SIGTERM when it has no OS equivalent) and never kills; "
+                      "an expired grace timer injects Stop / ContinueTryGracefulRestart with the timer's own flag (shared with R06.2 / R06.6)")
     ctx.rule("R09.5", "each public Job method enqueues exactly the documented controls at the documented priority")
     try:
         B = jobtask.Bodies(ctx, "R09.1")
@@ -21,10 +23,11 @@ def run(ctx):
         jobrules.hook_discipline(ctx, B)
     except Skip:
         pass
-    try:
-        jobrules.reset_summary(ctx)
-    except Skip:
-        pass
+    for fn, rule in ((jobrules.reset_summary, "R09.3"), (jobrules.signal_child_rule, "R09.6"), (jobrules.timer_summaries, "R09.6")):
+        try:
+            fn(ctx, rule)
+        except Skip:
+            pass
     try:
         jobrules.check_api_table(ctx, "R09.5")
     except Skip:
